@@ -149,7 +149,9 @@ def main():
                              obligation=ob['name'], kind='main', python=ob.get('python'),
                              label='%s[%d/%d]' % (ob['name'], si + 1, len(shards))))
         for f in kn:
-            jobs.append(dict(path=path, fn=ob['fn'], extra_pre=[f['predicate']], timeout=ob.get('timeout', 60),
+            first = shards[0] if shards else []
+            first = list(first) if isinstance(first, (list, tuple)) else [first]
+            jobs.append(dict(path=path, fn=ob['fn'], extra_pre=first + [f['predicate']], timeout=ob.get('timeout', 60),
                              per_path_timeout=ob.get('per_path_timeout'), expect='known', obligation=ob['name'],
                              kind='known', finding=f, python=ob.get('python'), label='%s[known:%s]' % (ob['name'], f['id'])))
     # longest first
